@@ -50,7 +50,7 @@ def plan(tier, seed):
 def mandatory(tier):
     out = [f"axes/{a}->{b}" for a, b in itertools.product(AXES, AXES)]
     out += [f"warp/{a}" for a in AXES] + [f"sample/{a}" for a in AXES] + [f"exp/{a}" for a in AXES]
-    out += [f"sample_same_domain/{h}" for h in ("downsample", "upsample", "resize", "flip_align_corners")] + ["shared_grid", "per_field_grids", "per_field_grids/same_spacing_other_orientation", "FlowField", "sitk", "helpers", "transform_flow/own", "transform_flow/flag_flipped", "transform_flow/same_domain_resized", "derived_grids/fractional_internal_size", "singleton_axis", "transform_flow/after_grid_"]
+    out += [f"sample_same_domain/{h}" for h in ("downsample", "upsample", "resize", "flip_align_corners")] + ["shared_grid", "per_field_grids", "per_field_grids/same_spacing_other_orientation", "FlowField", "sitk", "helpers", "transform_flow/own", "transform_flow/flag_flipped", "transform_flow/same_domain_resized", "derived_grids/fractional_internal_size", "singleton_axis", "transform_flow/after_grid_"] + [f"regrid_method/{o}" for o in ("resize", "resample", "downsample", "avg_pool", "crop", "pad", "center_crop")]
     return out
 
 
@@ -307,6 +307,41 @@ def run_item(ctx, item):
         ctx.true("transform_flow_after_grid__is_on_new_grid", fl.grid() == gflip and fl.grid().align_corners() == gflip.align_corners() and fl.axes() is Axes.from_grid(gflip), key="transform_flow/after_grid_/grid")
         ctx.close("transform_flow_world_vectors_after_flag_change_of_transform", got_w, fields_w[0], tol, key="transform_flow/after_grid_")
         ctx.bucket("transform_flow/after_grid_")
+    # ---------------- 4d. the re-gridding methods flow fields inherit from image batches (resize, resample, down/upsample,
+    #                     pooling, crop, pad): the result means the same world displacement at its own sample positions
+    ref0, g0 = refs[0], grids[0]
+    ext0 = float(np.linalg.norm(ref0.s * ref0.n))
+
+    def world_field_at(refg):
+        wt = world_positions(refg)
+        return np.moveaxis(((wt - ref0.c) @ (A[0] * 0.6).T / ext0 + 0.3 * t[0]) * float(ref0.s.mean()), -1, 0), wt
+
+    n0 = [int(k) for k in g0.size()]
+    regrid_ops = {
+        "resize": lambda f: f.resize(tuple(int(k) + 2 for k in n0)),
+        "resample": lambda f: f.resample(float(g0.spacing().min()) * 0.8),
+        "downsample": lambda f: f.downsample(1, sigma=0),
+        "avg_pool": lambda f: f.avg_pool(1),
+        "crop": lambda f: f.crop(margin=1),
+        "pad": lambda f: f.pad(margin=1, mode="replicate"),
+        "center_crop": lambda f: f.center_crop(tuple(max(k - 2, 2) for k in n0)),
+    }
+    for a in AXES:
+        for oname, op_ in regrid_ops.items():
+            with ctx.guard("FlowFields regrid method", key=f"exc/regrid_method/{oname}", axes=a):
+                f0 = FlowFields(torch.tensor(to_axes(ref0, fields_w[0], a)[None], dtype=torch.float32), g0, ax[a])
+                r_ = op_(f0)
+                ok = ctx.true("regrid_method_keeps_type_and_axes", isinstance(r_, FlowFields) and r_.axes() is ax[a], key=f"regrid_method/{oname}/meta", axes=a, got=[type(r_).__name__, str(getattr(r_, "axes", lambda: None)())])
+                if not ok:
+                    continue
+                rr = gen.ref_of_grid(r_.grid())
+                want_w, wt = world_field_at(rr)
+                got_w = r_.axes(Axes.WORLD).tensor()[0].double().numpy()
+                io = ref0.points(wt, WORLD, GRID)
+                inside = ((io >= 0.5) & (io <= ref0.n - 1.5)).all(axis=-1)
+                if inside.any():
+                    ctx.close("regrid_method_preserves_world_displacement", got_w[:, inside], want_w[:, inside], tol * 4, key=f"regrid_method/{'representation_not_rescaled' if a != WORLD else 'world'}/{oname}/{a}", axes=a, op=oname, own_flag=g0.align_corners())
+                ctx.bucket(f"regrid_method/{oname}")
     # ---------------- 4c. a grid with a single-sample axis (a slice of a volume, a row of an image): the representations
     #                     that exist there (index, cube of convention False, world) still mean the same displacement
     with ctx.guard("singleton axis", key="exc/singleton_axis"):
